@@ -147,6 +147,23 @@ def build(path, tr, timeout=0.25, hooks=0):
     return E
 
 
+class SetupBlocked(Exception): pass
+_SETUP_BROKEN = [None]
+
+
+def build_watched(path, tr, **kw):
+    """`build` in a thread of its own: its fault-free sessions must not block either (e.g. on a lock an earlier one kept)"""
+    box = {}
+    def target():
+        try: box['E'] = build(path, tr, **kw)
+        except BaseException as e: box['e'] = e
+    t = threading.Thread(target=target, name='setup', daemon=True)
+    t.start(); t.join(20)
+    if t.is_alive(): raise SetupBlocked('a fault-free set-up session blocked for ever')
+    if 'e' in box: raise box['e']
+    return box['E']
+
+
 def outcome_kind(e):
     if e is None: return 'ok'
     from pony.orm import core, dbapiprovider
@@ -197,7 +214,17 @@ def real_case(workdir, case):
     path = os.path.join(workdir, 'c%d.sqlite' % case['id'])
     for ext in ('', '-journal', '-wal', '-shm'):
         if os.path.exists(path + ext): os.remove(path + ext)
-    E = build(path, tr, hooks=case.get('hooks', 0))
+    if _SETUP_BROKEN[0] is not None:       # the set-up is deterministic: it failed before, it fails again
+        return {'sessions': [], 'blocked': None, 'setup_failed': _SETUP_BROKEN[0]}
+    try:
+        E = build_watched(path, tr, hooks=case.get('hooks', 0))
+    except BaseException as e:
+        _SETUP_BROKEN[0] = '%s: %s' % (type(e).__name__, str(e)[:200])
+        # the set-up is itself a sequence of fault-free sessions (bind, generate_mapping, one db_session with two DDL
+        # statements, disconnect): when it fails, an earlier fault-free session has broken a later one
+        from pony.orm import core
+        core.local.db2cache.clear(); core.local.db_session = None; core.local.db_context_counter = 0
+        return {'sessions': [], 'blocked': None, 'setup_failed': '%s: %s' % (type(e).__name__, str(e)[:200])}
     tr.wrap_locks(E.db.provider)
     if case['reconnect']:
         E.db.provider.should_reconnect = lambda exc: True       # instance attribute of this provider only
@@ -367,6 +394,8 @@ def case_key(case):
 def oracle(ctx, case, real):
     """the property itself on the real run; returns the list of problems (strings)"""
     problems = []
+    if real.get('setup_failed'):
+        return ['fault-free sessions in a row (bind, generate_mapping, a db_session running two DDL statements): a later one failed because of an earlier one: ' + real['setup_failed']]
     if real['blocked']:
         problems.append('the thread of the session blocked for ever (%r)' % (real['blocked'],))
         return problems
@@ -527,7 +556,7 @@ def check_cases(ctx, cases, reals):
         if c.get('when') == 'after': ctx.count('fault-after-the-call')
         ctx.count('exc:' + c['exc_class'].__name__)
         problems = oracle(ctx, c, r)
-        if not r['blocked']:
+        if not r['blocked'] and not r.get('setup_failed'):
             test = r['sessions'][test_index(c)]
             ctx.count('outcome:' + test['outcome'])
             ctx.count('end:' + ('pooled' if test['state']['poolCon'] is not None else 'no-connection-in-pool'))
@@ -539,7 +568,7 @@ def check_cases(ctx, cases, reals):
             ctx.violation(p, cj, observed={'sessions': r.get('sessions'), 'other': r.get('other'), 'blocked': r.get('blocked')},
                           expected='lock free, cache closed, every connection pooled-and-idle or closed exactly once, later sessions unaffected',
                           key=violation_key(c, p, r))
-        if m is not None and not r['blocked']:
+        if m is not None and not r['blocked'] and not r.get('setup_failed'):
             if 'driver_error' in m:
                 ctx.divergence('driver error', cj, model=m)
             else:
@@ -560,11 +589,12 @@ KNOWN_KEY_CONNECT_INIT = 'sqlitepool-connect-init-fault:no-pid'
 
 
 def violation_key(case, problem, real=None):
+    if 'fault-free sessions in a row' in problem: return 'setup-sessions-failed'
     if real is not None and half_initialised(case, real) and ('following session' in problem or 'neither returned' in problem):
         return KNOWN_KEY_CONNECT_INIT
     kind = ('leak' if 'neither returned' in problem else 'double-close' if 'times on connection' in problem else
             'lock-held' if 'still held' in problem else 'blocked' if 'blocked' in problem else
-            'pooled-in-transaction' if 'inside an open transaction' in problem else 'later-session-failed' if 'following session' in problem else 'other')
+            'pooled-in-transaction' if 'inside an open transaction' in problem else 'later-session-failed' if 'following session' in problem else 'setup-sessions-failed' if 'fault-free sessions in a row' in problem else 'other')
     return '%s:%s' % (kind, case_key(case))
 
 
@@ -594,7 +624,7 @@ def thread_case(workdir, tc):
     path = os.path.join(workdir, 't%d.sqlite' % tc['id'])
     for ext in ('', '-journal', '-wal', '-shm'):
         if os.path.exists(path + ext): os.remove(path + ext)
-    E = build(path, tr, timeout=2.0)
+    E = build_watched(path, tr, timeout=2.0)
     tr.wrap_locks(E.db.provider)
     mark = tr.mark()
     a_holds, gate = threading.Event(), threading.Event()
@@ -670,7 +700,10 @@ def thread_scenarios(ctx, workdir):
         for pt in points:
             tcs.append({'id': len(tcs), 'shape': shape, 'fault': pt, 'others': 2 if (len(tcs) % 3) else 1,
                         'exc_class': EXC_CLASSES[len(tcs) % len(EXC_CLASSES)]})
-    reals = [thread_case(workdir, tc) for tc in tcs]
+    try:
+        reals = [thread_case(workdir, tc) for tc in tcs]
+    except Exception as e:
+        ctx.note('thread scenarios skipped: set-up failed (%s)' % type(e).__name__); return
     reqs, where = [], []
     for tc, r in zip(tcs, reals):
         inp = {'shape': tc['shape'], 'fault': list(tc['fault']) if tc['fault'] else None, 'others': tc['others'], 'exc_class': tc['exc_class'].__name__}
@@ -741,7 +774,7 @@ def pool_contract(ctx, workdir):
             for foreign in (True, False):
                 tr = Tracer()
                 path = os.path.join(workdir, 'pc-%s-%d.sqlite' % (call, foreign))
-                E = build(path, tr)
+                E = build_watched(path, tr)
                 run_session(E, {}, _b_read)
                 pool = E.db.provider.pool
                 pooled = pool.con
@@ -755,7 +788,10 @@ def pool_contract(ctx, workdir):
                             'pid_kept': pool.pid == 424242,
                             'closed': sorted(i for i, n in tr.close_counts().items() for _ in range(n) if i in (pooled.trace_id, con.trace_id))})
                 tr.cleanup()
-    t = threading.Thread(target=in_thread, name='pool-contract'); t.start(); t.join(60)
+    def guarded():
+        try: in_thread()
+        except Exception as e: ctx.note('pool contract skipped: set-up failed (%s)' % type(e).__name__)
+    t = threading.Thread(target=guarded, name='pool-contract'); t.start(); t.join(60)
     outs = ctx.driver('C19', [{'op': 'pool_api', 'call': r['call'], 'poolCon': r['pooled'], 'con': r['con']} for r in res])
     for r, m in zip(res, outs):
         inp = {'pool_api': r['call'], 'connection': 'not the pooled one' if r['foreign'] else 'the pooled one'}
@@ -778,6 +814,7 @@ def run(ctx):
         ctx.note('driver unavailable: correspondence skipped, property oracle only')
     workdir = ponyutil.workdir('c19')
     try:
+        _SETUP_BROKEN[0] = None
         probe_init_guard(ctx, workdir)
         _BASE.clear()
         cases = generate_cases(ctx) if ctx.driver.ok else []
